@@ -19,6 +19,16 @@ const VAR_NAME_START_CHARS: [char; 52] = [
 ];
 const VAR_NAME_INDEX_PRESERVE: usize = 26; // 'A' ~ 'Z' are preserved
 
+// words that cannot be used as a variable name in (strict or sloppy mode) JavaScript
+const JS_RESERVED_WORDS: [&str; 49] = [
+    "await", "break", "case", "catch", "class", "const", "continue", "debugger", "default",
+    "delete", "do", "else", "enum", "export", "extends", "false", "finally", "for", "function",
+    "if", "import", "in", "instanceof", "new", "null", "return", "super", "switch", "this",
+    "throw", "true", "try", "typeof", "var", "void", "while", "with", "yield", "let", "static",
+    "implements", "interface", "package", "private", "protected", "public", "eval", "arguments",
+    "undefined",
+];
+
 #[derive(Debug, Clone)]
 pub(crate) struct JsIdent {
     name: String,
@@ -202,6 +212,10 @@ fn get_var_name(mut var_id: usize) -> String {
     while var_id > 0 {
         var_name.push(VAR_NAME_CHARS[var_id % VAR_NAME_CHARS.len()]);
         var_id /= VAR_NAME_CHARS.len();
+    }
+    if JS_RESERVED_WORDS.contains(&var_name.as_str()) {
+        // a generated name never starts with `_` , so this cannot collide with another one
+        var_name.insert(0, '_');
     }
     var_name
 }
